@@ -13,6 +13,7 @@ import ScnrVerif.Model.Compile
 import ScnrVerif.Model.Agree
 import ScnrVerif.Model.Registry
 import ScnrVerif.Model.DotText
+import ScnrVerif.Model.JsonText
 import Std.Data.HashMap
 /-!
 # Line-protocol driver for the executable model (`lake exe scnr_model < case.in`)
@@ -75,6 +76,8 @@ structure DState where
       attached to the pattern sent last); the keys of the real registry in id order -/
   kpats : Array (List CPat) := #[]
   regreal : List Nat := []
+  /-- C16 text layer: the value tree the model produced for the last serialisation command -/
+  lastJson : Option Json := none
   /-- auxiliary automata (minimizer input / output) -/
   aux : Array Dfa := #[]
   iters : Array Iter := #[]
@@ -436,7 +439,7 @@ def keyName : Key → String
 def takeN (n : Nat) (ws : List String) : Option (List Nat × List String) :=
   if ws.length < n then none else some ((ws.take n).filterMap String.toNat?, ws.drop n)
 
-partial def parseJson : List String → Option (Json × List String)
+partial def parseJsonToks : List String → Option (Json × List String)
   | "N" :: r => some (.null, r)
   | "T" :: r => some (.bool true, r)
   | "F" :: r => some (.bool false, r)
@@ -449,7 +452,7 @@ partial def parseJson : List String → Option (Json × List String)
 where
   manyJ : Nat → List String → Option (List Json × List String)
     | 0, r => some ([], r)
-    | n + 1, r => (parseJson r).bind fun (x, r') => (manyJ n r').map fun (xs, r'') => (x :: xs, r'')
+    | n + 1, r => (parseJsonToks r).bind fun (x, r') => (manyJ n r').map fun (xs, r'') => (x :: xs, r'')
   manyKV : Nat → List String → Option (List (Key × Json) × List String)
     | 0, r => some ([], r)
     | n + 1, k :: r =>
@@ -459,7 +462,7 @@ where
           | m :: r1 => m.toNat?.bind fun m => (takeN m r1).map fun (cs, r2) => (Key.other cs, r2)
           | [] => none
         else (keyOfName k).map fun kk => (kk, r)
-      key.bind fun (kk, r1) => (parseJson r1).bind fun (v, r2) => (manyKV n r2).map fun (kvs, r3) => ((kk, v) :: kvs, r3)
+      key.bind fun (kk, r1) => (parseJsonToks r1).bind fun (v, r2) => (manyKV n r2).map fun (kvs, r3) => ((kk, v) :: kvs, r3)
     | _, [] => none
 
 /-- canonical printing: object fields sorted by the field name (as serde_json's map does) -/
@@ -1018,29 +1021,53 @@ def step (st : DState) (line : String) : DState × Option String :=
       | .unsupported => "build unsupported"
     (st, some res)
   | "jser" :: r =>
-    (st, some (match parseCfg r with
-      | some ms => "json" ++ showJson (toJsonModes ms)
-      | none => "bad-op"))
+    match parseCfg r with
+    | some ms => ({ st with lastJson := some (toJsonModes ms) }, some ("json" ++ showJson (toJsonModes ms)))
+    | none => (st, some "bad-op")
+  | "jtext" :: r =>
+    -- C16 text layer: the JSON *text* the crate wrote (compact or pretty), parsed by the verified
+    -- parser `Scnr.parseJson` (round trip with the serde_json layout proved: `parseJson_printJson`),
+    -- must be the value tree of the model
+    let text := r.filterMap String.toNat?
+    (st, some ("jtext done\n" ++
+      (match Scnr.parseJson text, st.lastJson with
+      | none, _ => "S FAIL the written JSON text is rejected by the verified parser parseJson"
+      | some j, some want =>
+        if showJson j == showJson want then "S ok"
+        else "S FAIL the written JSON text denotes another value tree than the configuration / value that was serialised"
+      | some _, none => "S ok")))
+  | "jdetext" :: r =>
+    -- the text → value direction: the text is parsed by `Scnr.parseJson`, then read as a mode list
+    let text := r.filterMap String.toNat?
+    (st, some (match Scnr.parseJson text with
+      | some j =>
+        match fromJsonModes j with
+        | some ms => "jde" ++ showJson (toJsonModes ms)
+        | none => "jde err"
+      | none => "jde err"))
   | "jde" :: r =>
-    (st, some (match parseJson r with
+    (st, some (match parseJsonToks r with
       | some (j, []) =>
         match fromJsonModes j with
         | some ms => "jde" ++ showJson (toJsonModes ms)
         | none => "jde err"
       | _ => "bad-op"))
   | ["jmatch", t, a, b] =>
-    (st, some (match t.toNat?, a.toNat?, b.toNat? with
-      | some t, some a, some b => "json" ++ showJson (toJsonMatch ⟨t, ⟨a, b⟩⟩)
-      | _, _, _ => "bad-op"))
+    match t.toNat?, a.toNat?, b.toNat? with
+    | some t, some a, some b =>
+      ({ st with lastJson := some (toJsonMatch ⟨t, ⟨a, b⟩⟩) }, some ("json" ++ showJson (toJsonMatch ⟨t, ⟨a, b⟩⟩)))
+    | _, _, _ => (st, some "bad-op")
   | ["jposition", l, c] =>
-    (st, some (match l.toNat?, c.toNat? with
-      | some l, some c => "json" ++ showJson (toJsonPosition ⟨l, c⟩)
-      | _, _ => "bad-op"))
+    match l.toNat?, c.toNat? with
+    | some l, some c =>
+      ({ st with lastJson := some (toJsonPosition ⟨l, c⟩) }, some ("json" ++ showJson (toJsonPosition ⟨l, c⟩)))
+    | _, _ => (st, some "bad-op")
   | ["jmatchext", t, a, b, l1, c1, l2, c2] =>
-    (st, some (match [t, a, b, l1, c1, l2, c2].map String.toNat? with
-      | [some t, some a, some b, some l1, some c1, some l2, some c2] =>
-        "json" ++ showJson (toJsonMatchExt ⟨t, ⟨a, b⟩, ⟨l1, c1⟩, ⟨l2, c2⟩⟩)
-      | _ => "bad-op"))
+    match [t, a, b, l1, c1, l2, c2].map String.toNat? with
+    | [some t, some a, some b, some l1, some c1, some l2, some c2] =>
+      ({ st with lastJson := some (toJsonMatchExt ⟨t, ⟨a, b⟩, ⟨l1, c1⟩, ⟨l2, c2⟩⟩) },
+        some ("json" ++ showJson (toJsonMatchExt ⟨t, ⟨a, b⟩, ⟨l1, c1⟩, ⟨l2, c2⟩⟩)))
+    | _ => (st, some "bad-op")
   | ["dot", m] =>
     (st, some (match m.toNat?.bind fun m => st.modes[m]? with
       | some M =>
